@@ -35,6 +35,7 @@ const (
 type c15mon struct {
 	sample  []metrics.Sample
 	caseSeq int64 // incremented at each call start
+	inCall  int32 // 1 while a decode call is running (the no-termination monitor only judges time spent inside calls)
 	c       *wk.Ctx
 }
 
@@ -100,7 +101,9 @@ func (m *c15mon) call(idx int, in []byte, entry string, class string, f func() e
 	a0 := m.allocs()
 	t0 := threadCPU()
 	var err error
+	atomic.StoreInt32(&m.inCall, 1)
 	pan, pm, st := wk.Guard(func() { err = f() })
+	atomic.StoreInt32(&m.inCall, 0)
 	t1 := threadCPU()
 	a1 := m.allocs()
 	_ = err
@@ -177,7 +180,7 @@ func c15(c *wk.Ctx) {
 		for {
 			time.Sleep(500 * time.Millisecond)
 			seq := atomic.LoadInt64(&m.caseSeq)
-			if seq != last {
+			if seq != last || atomic.LoadInt32(&m.inCall) == 0 {
 				last = seq
 				cpuAtStart = procCPU()
 				continue
@@ -263,6 +266,65 @@ func c15(c *wk.Ctx) {
 			}
 			c.Begin(idx, fmt.Sprintf("seed %s %x", kind, clipIn(seed)))
 			c15seed(c, m, idx, r, nil, seed, structIDs, enumIDs)
+		}
+		idx++
+	}
+	// deep nesting: recursion depth grows with the input (12 bytes per level of a self-referential type); a fatal
+	// stack overflow cannot be recovered, so the child's death is the observation
+	for _, depth := range []int{1000, 50000, c.Pick(1200000, 1500000)} {
+		for variant := 0; variant < 3; variant++ {
+			if c.Mine(idx) {
+				var in []byte
+				name := ""
+				switch variant {
+				case 0: // inputPeerUserFromMessage#17bae2e6 peer:InputPeer msg_id:int user_id:int, nested in its first field
+					name = "object-in-first-field"
+					for i := 0; i < depth; i++ {
+						in = append(in, le32(0x17bae2e6)...)
+					}
+					in = append(in, le32(0x7f3b18ea)...)
+					for i := 0; i < depth; i++ {
+						in = append(in, le32(1)...)
+						in = append(in, le32(2)...)
+					}
+				case 1: // rpc_result inside rpc_result ... (result:Object)
+					name = "rpc_result-chain"
+					for i := 0; i < depth; i++ {
+						in = append(in, le32(0xf35c6d01)...)
+						in = append(in, le64(uint64(i))...)
+					}
+					in = append(in, le32(0x997275b5)...)
+				case 2: // textBold#6724abc4 text:RichText nested (page rich text)
+					name = "richtext-chain"
+					for i := 0; i < depth; i++ {
+						in = append(in, le32(0x6724abc4)...)
+					}
+					in = append(in, le32(0xdc3d824f)...) // textEmpty
+				}
+				c.Begin(idx, fmt.Sprintf("deep %s depth=%d bytes=%d", name, depth, len(in)))
+				m.call(idx, in, "DecodeUnknownObject", "deep-nesting", func() error { _, e := tl.DecodeUnknownObject(in); return e })
+				c.Distinct("deep", name, depth)
+			}
+			idx++
+		}
+	}
+	// gzip inside gzip inside gzip ...: every layer is a fresh decoder
+	for _, depth := range []int{10, 500, c.Pick(3000, 20000)} {
+		if c.Mine(idx) {
+			inner := le32(0x997275b5)
+			for i := 0; i < depth; i++ {
+				var z bytes.Buffer
+				zw, _ := gzip.NewWriterLevel(&z, gzip.NoCompression)
+				zw.Write(inner)
+				zw.Close()
+				inner = append(le32(0x3072cfa1), tlBytes(z.Bytes())...)
+				if len(inner) > 12<<20 {
+					break
+				}
+			}
+			c.Begin(idx, fmt.Sprintf("deep gzip depth=%d bytes=%d", depth, len(inner)))
+			m.call(idx, inner, "DecodeUnknownObject", "deep-gzip", func() error { _, e := tl.DecodeUnknownObject(inner); return e })
+			c.Distinct("deep-gzip", depth)
 		}
 		idx++
 	}
